@@ -27,6 +27,8 @@ edge iff recorded draw k is < p; refusals only where documented or known (torus 
 """
 import itertools
 import random as pyrandom          # the module-level generator belongs to the code under test
+import shutil
+import tempfile
 
 import networkx
 from networkx.utils.misc import create_py_random_state
@@ -34,8 +36,10 @@ from networkx.utils.misc import create_py_random_state
 from harness import common
 from harness.common import Case, req, enc_list, enc_pairs
 
-from cnfgen.graphs import Graph
+from cnfgen.graphs import Graph, readGraph
 import cnfgen.clitools.graph_build as graph_build
+import cnfgen.clitools.graph_args as graph_args
+from harness.props import C15 as c15base
 
 RULE = ("grid/torus: every dimension vector over {1..4} of length <= 3 (quick) / {1..5}, length <= 4 (thorough) + odd ones "
         "(0, repeated, six dimensions, one long dimension); complete: all (n, b) <= 5 x 5 + arbitrary block-size lists; "
@@ -512,9 +516,81 @@ def build_gnm(info):
     return case
 
 
+
+# ------------------------------------------------------------------ suite nx_cli (obtain_graph with the networkx part computed by the model)
+def build_nxcli(info):
+    spec = list(info["spec"])
+    mode, rseed = info.get("mode", "seed"), info.get("rseed", 0)
+    state = {}
+    graph_args.parse_graph_argument("simple", list(spec))      # a spec the parser refuses is not a case of this suite
+    case = Case("nx_cli", "", None, None, cls="nxcli:" + (spec[0] if spec else ""), nontrivial=True, info=info)
+
+    def impl():
+        tmp = tempfile.mkdtemp(prefix="c15nx-")
+        try:
+            toks = [t.replace("@TMP@", tmp) for t in spec]
+            parsed = graph_args.parse_graph_argument("simple", toks)
+            state["parsed"] = dict(parsed)
+            with c15base.Recorder(mode, rseed) as rec, InstRecorder(mode, rseed) as rr:
+                try:
+                    G = graph_args.obtain_graph(parsed)
+                    state["final"] = c15base.snapshot(G)
+                    out = "OK " + c15base.fmt_graph(G)
+                    if "save" in parsed:
+                        fmt, fname = parsed["save"]
+                        H = readGraph(fname, "simple", fmt)
+                        state["saved"] = c15base.snapshot(H)
+                        out += " SAVED " + c15base.fmt_saved(H, G)
+                    else:
+                        out += " NOSAVE"
+                    out += " R 0"
+                except Exception as e:
+                    state["exc"] = e
+                    out = common.exc_name(e)
+            c = c15base.CONS[("simple", parsed["construction"])]
+            case.req = req("nx_cli", 0, c, c15base.enc_args(parsed["args"]),
+                           c15base.enc_opt(parsed, "plantclique"), c15base.enc_opt(parsed, "plantbiclique"),
+                           c15base.enc_opt(parsed, "addedges"), c15base.enc_opt(parsed, "splitedges"),
+                           c15base.save_code("simple", parsed), c15base.RESTART_BUDGET, rr.encoded(), [0], rec.encoded())
+            mods = [o for o in ("plantclique", "addedges", "splitedges", "save") if o in parsed]
+            case.cls = "nxcli:{}:{}{}".format(parsed["construction"], "+".join(mods) or "plain",
+                                              ":refused" if "exc" in state else "")
+            return out
+        finally:
+            shutil.rmtree(tmp, ignore_errors=True)
+
+    def oracle():
+        parsed = state.get("parsed")
+        if parsed is None:
+            return None
+        cname, toks = parsed["construction"], parsed["args"]
+        exc = state.get("exc")
+        if exc is not None and not isinstance(exc, ValueError):
+            return {"defect": "simple:{}:exception".format(cname), "exception": type(exc).__name__, "spec": spec}
+        if any(o in parsed for o in ("plantclique", "addedges", "splitedges")):
+            return None                     # the modifiers' promises are checked by the suite `cli` of C15.py
+        legal = c15base.documented_construction("simple", cname, toks)
+        if exc is not None:
+            if "save" in parsed:
+                return None
+            return {"defect": "simple:{}:refused-legal".format(cname), "spec": spec} if legal else None
+        if not legal:
+            return {"defect": "simple:{}:accepted-illegal".format(cname), "spec": spec}
+        r = c15base.check_construction("simple", cname, toks, state["final"])
+        if r is not None:
+            r["defect"] = "simple:{}:structure".format(cname)
+            r["spec"] = spec
+            return r
+        if "saved" in state and state["saved"] != state["final"]:
+            return {"defect": "save:differs", "spec": spec}
+        return None
+    case.impl, case.oracle = impl, oracle
+    case.req = "nx_cli"
+    return case
+
 # ------------------------------------------------------------------ dispatch / generators
 BUILDERS = {"nx_grid": build_grid, "nx_line": build_line, "nx_from": build_from, "nx_product": build_product,
-            "nx_multi": build_multi, "nx_gnp": build_gnp, "nx_gnm": build_gnm}
+            "nx_multi": build_multi, "nx_gnp": build_gnp, "nx_gnm": build_gnm, "nx_cli": build_nxcli}
 
 
 def build(suite, info):
@@ -606,6 +682,31 @@ def cases(ctx):
     for n, m in [(25, 60), (40, 30), (12, 65), (12, 66), (30, 434), (9, 35)]:
         for mode in ("seed", "sticky"):
             infos.append(("nx_gnm", dict(n=n, m=m, mode=mode, rseed=rs())))
+
+
+    # the same constructions through parse_graph_argument + obtain_graph, with modifiers
+    specs = []
+    for dims in [["2"], ["3", "3"], ["2", "3", "2"], ["4", "1"], ["1"], ["0"], ["-2", "3"], [], ["2.5"], ["1e1"], ["3", "1e400"], ["nan"],
+                 ["5"], ["3", "4"], ["2", "2", "2", "2"]]:
+        for name in ("grid", "torus"):
+            specs.append([name] + dims)
+    for a in [["3"], ["3", "2"], ["2", "3"], ["1", "1"], ["4", "1"], ["0", "2"], ["2", "0"], ["2", "-1"], ["2", "2", "2"], ["2.0", "2"], []]:
+        specs.append(["complete"] + a)
+    for a in [["5", "0.5"], ["6", ".3"], ["4", "1"], ["4", "0"], ["4", "1.0"], ["3", "0.5", "1"], ["3", "0.5", "2"], ["0", "0.5"],
+              ["4", "1.5"], ["4", "-0.1"], ["4", "nan"], ["4"], ["7", "0.9"], ["1", "0.5"], ["4", "inf", "1"], ["2", "1e-3"]]:
+        specs.append(["gnp"] + a)
+    for a in [["5", "4"], ["5", "10"], ["5", "11"], ["5", "0"], ["1", "0"], ["1", "1"], ["0", "0"], ["6", "7"], ["4", "6"], ["4", "-1"],
+              ["4"], ["4", "2", "1"], ["3.0", "2"], ["7", "20"], ["2", "1"]]:
+        specs.append(["gnm"] + a)
+    options = [[], ["plantclique", "2"], ["addedges", "1"], ["splitedges", "1"], ["addedges", "2", "plantclique", "3"],
+               ["save", "kthlist", "@TMP@/g.kthlist"], ["splitedges", "2", "addedges", "1", "save", "dimacs", "@TMP@/g"],
+               ["plantclique", "9"], ["addedges", "50"], ["save", "@TMP@/g.nothing"]]
+    for sp in specs:
+        opts = [[]] + ([rng.choice(options[1:])] if quick else options[1:])
+        for o in opts:
+            modes = ["seed", rng.choice(MODES[1:])] if (sp[0] in ("gnp", "gnm") or o) else ["seed"]
+            for mode in modes:
+                infos.append(("nx_cli", dict(spec=sp + o, mode=mode, rseed=rs())))
 
     for suite, info in infos:
         yield build(suite, info)
